@@ -55,6 +55,11 @@ type Case struct {
 	Swap     bool       `json:"swap"`      // false: the link exists from the start (scan sees it)
 	Absolute bool       `json:"absolute"`  // link target absolute instead of relative
 	Ops      []*Op      `json:"ops"`
+	// Late selects the second scenario: the victim directory is REMOVED and
+	// replaced by a link to another outside directory in the middle of one
+	// Opener's / one Transmit's lifetime (after a first file below it was
+	// opened), and a path that only exists behind the link is requested next.
+	Late string `json:"late,omitempty"` // "", opener, transmit
 }
 
 type watcher struct {
@@ -150,7 +155,100 @@ func (d *listDecoder) Decode(t *rsync.Transmission) error {
 }
 func (d *listDecoder) Finalize() error { return nil }
 
+// swapEncoder performs the late swap when the first file's transmission is done.
+type swapEncoder struct {
+	listEncoder
+	swap func()
+	done bool
+}
+
+func (e *swapEncoder) Encode(t *rsync.Transmission) error {
+	e.listEncoder.Encode(t)
+	if t.Done && !e.done {
+		e.done = true
+		e.swap()
+	}
+	return nil
+}
+
+// judgeLate runs the late-swap scenario.
+func judgeLate(c *Case, dir string) (violation string, nontrivial bool, classes []string) {
+	root, outside := filepath.Join(dir, "root"), filepath.Join(dir, "outside")
+	other := filepath.Join(outside, "other")
+	victimRel := strings.Join(append(append([]string{}, c.Prefix...), "victim"), "/")
+	victimFull := filepath.Join(root, filepath.FromSlash(victimRel))
+	os.MkdirAll(victimFull, 0o755)
+	os.WriteFile(filepath.Join(victimFull, "present"), []byte("inside the root"), 0o644)
+	os.MkdirAll(other, 0o755)
+	secret := []byte("SECRET content outside the root")
+	os.WriteFile(filepath.Join(other, "fresh"), secret, 0o644)
+	os.WriteFile(filepath.Join(other, "present"), secret, 0o644)
+	defer disk.MakeWritable(dir)
+	before, _ := disk.Observe(outside)
+	w, err := newWatcher(dirsOf(outside))
+	if err != nil {
+		ev.Inconclusive("inotify unavailable: %v", err)
+		return "", false, nil
+	}
+	defer w.close()
+	swap := func() {
+		os.RemoveAll(victimFull)
+		target := other
+		if !c.Absolute {
+			target, _ = filepath.Rel(filepath.Dir(victimFull), other)
+		}
+		os.Symlink(target, victimFull)
+	}
+	leaked := false
+	detail := ""
+	switch c.Late {
+	case "opener":
+		o := filesystem.NewOpener(root)
+		if f, _, err := o.OpenFile(victimRel + "/present"); err == nil {
+			f.Close()
+		}
+		swap()
+		for _, name := range []string{"fresh", "present"} {
+			if f, _, err := o.OpenFile(victimRel + "/" + name); err == nil {
+				data, _ := io.ReadAll(f)
+				f.Close()
+				if strings.Contains(string(data), "SECRET") {
+					leaked, detail = true, "Opener.OpenFile("+victimRel+"/"+name+") returned outside content"
+				}
+			}
+		}
+		o.Close()
+	case "transmit":
+		enc := &swapEncoder{swap: swap}
+		paths := []string{victimRel + "/present", victimRel + "/fresh", victimRel + "/present"}
+		rsync.Transmit(root, paths, []*rsync.Signature{{}, {}, {}}, rsync.NewEncodingReceiver(enc))
+		for _, tr := range enc.list {
+			if tr.Operation != nil && strings.Contains(string(tr.Operation.Data), "SECRET") {
+				leaked, detail = true, "rsync.Transmit sent outside content"
+			}
+		}
+	default:
+		return "", false, nil
+	}
+	classes = append(classes, "late-swap/"+c.Late)
+	events := w.drain()
+	after, _ := disk.Observe(outside)
+	if leaked {
+		return fmt.Sprintf("late swap (%s): %s", c.Late, detail), true, classes
+	}
+	if len(events) > 0 {
+		return fmt.Sprintf("late swap (%s): activity outside the root through the link at %q: %v", c.Late, victimRel, events), true, classes
+	}
+	if before.Render(true) != after.Render(true) {
+		return fmt.Sprintf("late swap (%s): the tree outside the root changed", c.Late), true, classes
+	}
+	return "", true, classes
+}
+
 func judge(c *Case, dir string) (violation string, nontrivial bool, classes []string) {
+	if c.Late != "" {
+		return judgeLate(c, dir)
+	}
 	root, outside := filepath.Join(dir, "root"), filepath.Join(dir, "outside")
 	rootNode := c.Siblings.Clone()
 	if rootNode == nil || rootNode.Kind != disk.Dir {
@@ -330,6 +428,14 @@ func judge(c *Case, dir string) (violation string, nontrivial bool, classes []st
 func drawCase(rt *rapid.T) *Case {
 	g := disk.Gen{MaxDepth: 2, MaxFan: 4, Names: []string{"a", "b", "c", "sub"}, Links: false}
 	c := &Case{Swap: rapid.IntRange(0, 3).Draw(rt, "swap") > 0, Absolute: rapid.Bool().Draw(rt, "absolute")}
+	if rapid.IntRange(0, 5).Draw(rt, "late") == 0 {
+		c.Late = rapid.SampledFrom([]string{"opener", "transmit"}).Draw(rt, "late.kind")
+		for n := rapid.IntRange(0, 2).Draw(rt, "prefix"); n > 0; n-- {
+			c.Prefix = append(c.Prefix, rapid.SampledFrom([]string{"p", "q"}).Draw(rt, "prefix.name"))
+		}
+		c.Victim = &disk.Node{Kind: disk.Dir}
+		return c
+	}
 	for n := rapid.IntRange(0, 2).Draw(rt, "prefix"); n > 0; n-- {
 		c.Prefix = append(c.Prefix, rapid.SampledFrom([]string{"p", "q"}).Draw(rt, "prefix.name"))
 	}
@@ -372,6 +478,9 @@ func sample(c *Case) map[string]any {
 	var ops []string
 	for _, o := range c.Ops {
 		ops = append(ops, o.Kind+" "+o.Path)
+	}
+	if c.Late != "" {
+		return map[string]any{"scenario": "directory removed and replaced by a link to another outside directory in the middle of one " + c.Late + " lifetime", "victim_at": strings.Join(append(append([]string{}, c.Prefix...), "victim"), "/"), "absolute_target": c.Absolute}
 	}
 	return map[string]any{"victim_at": strings.Join(append(append([]string{}, c.Prefix...), "victim"), "/"), "victim": c.Victim.Render(false), "swapped_after_scan": c.Swap, "absolute_target": c.Absolute, "ops": ops}
 }
